@@ -18,9 +18,11 @@ Statement-level semantics of a `List BStmt`, written without any reference to th
   specification table of Model/Net.lean; an unknown kind gives `z`); every name no gate statement defines carries its assigned value
   when it is a port and `z` otherwise.
   Relational: nothing is said about cycles; a description with a combinational cycle may have none or several models.
-* `benchOKB` — the description builds (no exception in `bench.parse`): no two gate statements define the same name, no kind is the
-  literal `__fork__`.  `benchClosedB` — additionally every operand is a port or defined by a gate statement and no kind
-  lower-cases to `__fork__` (needed only where the scheduler `SimOps` enters: `C11.bench_end_to_end`).
+* `benchOKB` — the description builds (no exception in `bench.parse`, inside the domain of the circuit model): no two gate
+  statements define the same name, no kind is the literal `__fork__`.  `benchClosedB` — additionally every operand is a port or
+  defined by a gate statement and no kind lower-cases to `__fork__`: a coverage predicate of the correspondence run (closed
+  descriptions are the ones for which the scheduler's domain hypotheses `forksOKB` / `linesDrivenB` of `C11.bench_end_to_end` can
+  hold for an order over all nodes); no theorem depends on it.
 * `benchEval` — an evaluator by passes (for the driver), checked by `benchModelB` on every answer: `benchModelB … = true` implies
   `BenchModel` for the environment of the table (theorem `benchModelB_sound`). -/
 namespace KV.Netlist
